@@ -5,7 +5,7 @@ NOTES = ("All checks are property-based tests / fuzz targets over the real go-dc
 NOT_APPLICABLE = {}
 META = {
     "C09": dict(
-        technique="exhaustive enumeration + rapid property-based testing against a partition validity predicate; membership histories on one discovery object; leader-numbered groups with RPC fault injection",
+        technique="exhaustive enumeration + rapid property-based testing against a partition validity predicate; membership histories on one discovery object; leader-numbered groups with RPC fault injection; generated membership-event placements (closing / pending / reopening) on a real stream with a live-stream-set oracle",
         text="Every (N,T) pair with 1<=T<=N<=1024 is enumerated in the thorough tier (quick: N<=256, 512, 1024) and every "
              "member's set inspected against the partition predicate (non-empty, contiguous, ascending, disjoint, exact cover, "
              "sizes differ by at most 1, pure); member selection goes through the real static VBucketDiscovery. The space the "
@@ -30,14 +30,14 @@ META = {
              "cluster; real Start()/Close() for the serial-close gate); the replicated expressions of the grid unit only add density. TLS is outside.",
     ),
     "C01": dict(
-        technique="rapid stateful op-list generation against a settled-position reference model; crash injection at every step and inside multi-vBucket saves",
+        technique="rapid stateful op-list generation against a settled-position reference model; crash injection at every step, inside multi-vBucket saves and inside the file backend's write (torn file, child process)",
         text="Generated histories of deliveries, in-order/delayed/batched/withheld acks, ok/rejected/in-flight saves and crashes (an in-flight save "
              "applies any prefix of its per-vBucket writes in a generated order) run against the real stream, checkpoint and observers; at every "
              "durable write the written seqno must be the resume position or an event settled before that save began, and after every crash the "
              "restarted stream must be requested below the first unsettled event, which must be re-delivered. Search, not proof; the known "
              "finding F1 (absorbed event overtaking a withheld ack) is excluded by construction, counted and replayed each run.",
         note="Layer-A fakes (client/store/consumer) and the harness's reading of gocbcore's callback order are trusted; schedules inside the library "
-             "that the harness does not own are only sampled (DESIGN §7). File backend variant not covered by this unit (whole-state writes).",
+             "that the harness does not own are only sampled (DESIGN §7). The file backend is covered by unit TornFile (crash inside the file write) and by the C02 / C05 file histories.",
     ),
     "C04": dict(
         technique="rapid stateful op-lists (any ack order, repetitions, rebalance, old-session acks) + concurrent per-vBucket ackers against a max-settled model",
@@ -71,14 +71,14 @@ META = {
         note="simnode is my model of the memcached/DCP/sub-document protocol as gocbcore v10.5.2 speaks it (trusted). 'custom' backend = the in-memory fake.",
     ),
     "C03": dict(
-        technique="rapid generation of concurrent per-vBucket event sequences against an independent delivery-filter model (sequence equality + field fidelity)",
+        technique="rapid generation of concurrent per-vBucket event sequences against an independent delivery-filter model (sequence equality + field fidelity); stateful histories with rebalances and deliveries while a rebalance completes",
         text="Up to 8 vBuckets are fed concurrently through the real observers/stream; the delivered list per vBucket must equal the filter model "
              "as a sequence and every field must be the server's. Reserved-prefix and skipUntil boundaries are generated densely; a third of the "
              "vBuckets stream after a rollback (catch-up filter), a quarter of the others end with a transient cause and are resumed.",
         note="Layer A emulates gocbcore's decode-and-dispatch; the rollback negotiation on the wire is C08's. Concurrency across vBuckets is sampled by the Go scheduler.",
     ),
     "C12": dict(
-        technique="rapid stateful op-lists with stream-end fault injection over the full cause alphabet + finite-mode scenarios against an active-stream / reopen model",
+        technique="rapid stateful op-lists with stream-end fault injection over the full cause alphabet + finite-mode scenarios + shutdown-by-cancel with a transient end during it, against an active-stream / reopen model",
         text="Every end cause at every position of generated histories; transient => exactly one reopen from the settled position, others final; "
              "active count and stop channel checked in both directions after every end; finite mode stops exactly after each vBucket's sampled end. "
              "Histories include rebalances and STREAM_END from inside CloseStream; a stress unit attacks the finish-token hand-over across "
@@ -92,7 +92,7 @@ META = {
         note="A share of the histories goes through the real HTTP API (fiber + prometheus registry, GET /metrics and GET /states/offset in a child process); persist_seq_no, latency and agent-queue gauges are not asserted.",
     ),
     "C07": dict(
-        technique="exhaustive enumeration of replica tables + rapid schedules of threshold reports against a real observer gate + rapid report sequences on a simulated multi-node cluster with request-count synchronisation",
+        technique="exhaustive enumeration of replica tables + rapid schedules of threshold reports against a real observer gate fed with every event kind + rapid report sequences on a simulated multi-node cluster with request-count synchronisation",
         text="(a) the min-rule is checked on every table of 1..4 copies over a 20-entry alphabet (168k tables, exhaustive) and on sampled full-range "
              "tables; (b) the real gate is driven by concurrent feeder/reporter goroutines with a Lamport-style necessary condition that cannot "
              "false-alarm on scheduling; (c) the real rollbackMitigation polls OBSERVE_SEQNO on a 4-server simulated cluster (0..3 replicas, "
@@ -102,14 +102,14 @@ META = {
         note="simnode's OBSERVE_SEQNO/cluster-map model and gocbcore are trusted; liveness clauses are bounded waits (>= 400x the poll interval) re-run once in a fresh environment before being reported.",
     ),
     "C08": dict(
-        technique="rapid property-based testing on the wire: generated failover logs / rollback points / post-rollback streams against an independent branch-selection and catch-up model",
+        technique="rapid property-based testing on the wire: generated failover logs / rollback points / post-rollback streams against an independent branch-selection and catch-up model; rollback at session start or at a re-request inside the session, with and without rollback mitigation polling the simulated node",
         text="The real client.OpenStream + openStreamWithRollback run over gocbcore against the simulated node, under the real stream, checkpoint "
              "and observer; both DCP_STREAM_REQ packets are decoded at the node and compared with the model, and the consumer's view is "
              "compared with the catch-up filter model.",
         note="simnode is the trusted server model; R and the failover log are generated independently (a real server constrains them more).",
     ),
     "C11": dict(
-        technique="rapid-generated notification bursts placed by barriers (close / delay / reopen) in child processes, trace oracle (bracket grammar, counts, ranges, offsets, timing lower bound) + schedule stress",
+        technique="rapid-generated notification bursts placed by barriers (close / delay / reopen) in child processes, trace oracle (bracket grammar, counts, ranges, offsets, timing lower bound) + schedule stress; stateful rebalance histories with a live-stream-set oracle",
         text="The harness owns the schedule at CloseStream, OpenStream and the lifecycle callbacks and measures the placements inside the delay; "
              "the library's own goroutine race (finish-token waiter vs. reopen), which it does not own, is attacked statistically by thousands "
              "of zero-delay rebalances under scheduling pressure (static and dynamic membership). Three defects found here were repaired "
@@ -143,13 +143,13 @@ META = {
         note="Interface-level fakes; Couchbase-backend load failures are covered on the wire in C20.",
     ),
     "C19": dict(
-        technique="exhaustive enumeration of the 2^5 round patterns + generated round sequences / Stop placements, each a child process with a scripted Ping",
+        technique="exhaustive enumeration of the 2^5 round patterns + generated round sequences / Stop placements, each a child process with a scripted Ping; real Dcp.Start() stopped by Close / signal / stream ends with a ping-after-stop oracle",
         text="The fail-stop is a panic on a library goroutine, so every case is a process; ping timestamps, exit status and Stop() latency are "
              "compared with the statement. The select race 'tick vs. cancel' is provoked with a 100 us interval.",
         note="One-sided timing bounds with >= 10 % slack around the library's hard-coded 1 s retry wait.",
     ),
     "C20": dict(
-        technique="rapid-generated completion/deadline orders on a fake PendingOp + per-request fault injection (status / delay / silence / drop) on the simulated node for every operation wrapper, outcome compared with the node's own reply log",
+        technique="rapid-generated completion/deadline orders on a fake PendingOp + per-request fault injection (status / delay / silence / drop) on the simulated node for every operation wrapper, outcome compared with the node's own reply log; returned sequence-number maps compared with the node's values at the moment of return",
         text="Each wrapper is called over real gocbcore agents while the node answers its requests according to a generated behaviour; the "
              "returned error is compared with what the node actually confirmed (its reply log), and return times with the deadline. One "
              "defect found this way (GetVBucketSeqNos ignoring the callback error) was repaired (fix: commit 8b0ff5b). The checkpoint read of "
@@ -157,7 +157,7 @@ META = {
         note="Wrappers with hard-coded 60 s deadlines are exercised with prompt / error / drop only (silence would cost a minute per case); cbMetadata.Load's fail-stop on errors is C15's; membership operations use the same helpers.",
     ),
     "C10": dict(
-        technique="rapid-generated join/leave histories over real membership instances on a simulated bucket (child processes), leader/follower numbering with fake RPC clients, PUT sequences through the real HTTP API; numbering validity predicate at quiescence",
+        technique="rapid-generated join/leave histories over real membership instances on a simulated bucket (child processes), leader/follower numbering with fake RPC clients, generated registration orders through the real RPC server / client, PUT sequences through the real HTTP API; numbering validity predicate at quiescence",
         text="The numbering is checked as a validity predicate (same size, distinct numbers, join order) at every quiescent point of generated "
              "histories, for the Couchbase heart-beat mechanism end to end on the wire, for the leader-assigned mechanism through the real "
              "serviceDiscovery on both sides (incl. transiently failing assignment RPCs and followers restarting under their name), and for the "
